@@ -528,11 +528,12 @@ def _leading_dim(ctx, fis):
                               'init_avg_grad', 'init_training_metrics', 'init_avg_grad_shape', 'init_training_metrics_shapes'})
     ev.run(fi)
     sc = ev.last_scope
-    tp = sc.vars.get('to_pad')
-    if tp is None:
-      raise AnalysisError(f'{fi.short}: `to_pad` not found')
-    # first definition: -N % D
-    cands = [x for x in walk(tp) if x.op == 'bin' and x.args[0] == '%']
+    # the pad count is found by its shape: a `%` by the declared device count, anywhere in the function's values
+    cands = list(dict.fromkeys(x for v_ in sc.vars.values() for x in walk(v_)
+                               if x.op == 'bin' and x.args[0] == '%' and x.args[2].op == 'sym' and x.args[2].args[-1] == 'num_devices_for_pjit'))
+    if not cands:
+      raise AnalysisError(f'{fi.short}: no `<count> % num_devices_for_pjit` expression found')
+    tp = cands[0]
     ok = False
     for x in cands:
       a, b = x.args[1], x.args[2]
